@@ -128,7 +128,8 @@ def run(seed, scenario, trace=None, tier='quick'):
 
         model = PModel()
         st    = {'tasks': [], 'pilots': [], 'ambiguous': set(),
-                 'window': False, 'since_sync': set(), 'binds': {}}
+                 'window': False, 'since_sync': set(), 'binds': {},
+                 'task_cbs': {}}
 
         def on_event(ev):
             if ev['kind'] != 'deliver' or ev.get('chan') != C.rpc.STATE_PUBSUB:
@@ -177,6 +178,16 @@ def run(seed, scenario, trace=None, tier='quick'):
                 for p in pilots:
                     p.register_callback(slow_cb)
             tmgr.add_pilots(pilots)
+            if sc.get('c06_focus'):
+                # the application's view of the tasks (judged as C06)
+                sim.data['log_yield'] = sc.get('log_yield', False)
+                if sc.get('stall'):
+                    # the manager's notification thread is the slow one
+                    sim.slow['tmgr.sub.'] = (min(0.5, 2 * sc['stall']), 0.2)
+
+                def task_cb(task, state):
+                    st['task_cbs'].setdefault(task.uid, []).append(state)
+                tmgr.register_callback(task_cb)
             pids = [p.uid for p in pilots]
             pub  = W.state_publisher(side)
 
@@ -294,6 +305,31 @@ def run(seed, scenario, trace=None, tier='quick'):
             sync()
 
         def final(sim):
+            if sc.get('c06_focus'):
+                # C06 in a world with pilots: whatever the interleaving of
+                # notifications and pilot deaths, the callbacks of a task
+                # move forward, announce one final state at most, nothing
+                # after it, and end where Task.state ends
+                for task in st['tasks']:
+                    seq = st['task_cbs'].get(task.uid, [])
+                    bad = None
+                    for a, b in zip(seq, seq[1:]):
+                        if a in FINAL:
+                            bad = 'cb_after_final'
+                        elif VAL[b] < VAL[a] or a == b:
+                            bad = 'cb_order'
+                        if bad:
+                            break
+                    # (a task failed by its pilot's death is not announced to
+                    # manager level callbacks at all - the property does not
+                    # ask for that; but an announced final state is the state)
+                    if not bad and seq and seq[-1] in FINAL and \
+                            seq[-1] != task.state:
+                        bad = 'cb_state_mismatch'
+                    if bad:
+                        sim.violation('C06', bad, 'pilot_death_race',
+                                      {'uid': task.uid, 'callbacks': seq,
+                                       'state': task.state})
             racy_uids = set(st['ambiguous'])
             # in racy windows every task that had a delivery is excluded;
             # additionally any task delivered-to before a racy death without
@@ -336,7 +372,8 @@ def run(seed, scenario, trace=None, tier='quick'):
         return driver
 
     res = C.run_world(seed, build, trace=trace,
-                      max_steps=60000 if tier == 'quick' else 300000)
+                      max_steps=60000 if tier == 'quick' else 300000,
+                      stall_prob=sc.get('stall', 0.0))
     res['nontrivial'] = any(op[0] in ('die', 'die_bulk')
                             for op in sc['ops']) and \
         len(sc['tasks']) >= 2
